@@ -1086,7 +1086,8 @@ class Analysis:
                                 # provenance by value: the element itself is inside what the consumer handles although the
                                 # metadata delivered with it does not say so (below a one-to-many node metadata legitimately
                                 # travels with the last piece only, so this is not applied there)
-                                if not self.below_one_to_many(a.node) and elem in fns.tokens(a.value):
+                                if (not self.below_one_to_many(a.node) or self.serial_below_flatten(a.node)) \
+                                        and elem in fns.tokens(a.value):
                                     why = '%s %d is still handling %r, which contains it (the metadata delivered with that value does not name it)' % (
                                         a.kind, a.node, a.value)
                                     break
@@ -1119,6 +1120,36 @@ class Analysis:
                     V.append(v)
                     c05_done = True
         return V
+
+    def serial_below_flatten(self, nid):
+        """Is this consumer reached from a flatten node through a straight line of one-to-one nodes that contains
+        a node which hands on one element at a time and waits for it (buffer, delay)?  Then the pieces of one
+        element are handled strictly one after the other, the last piece - which carries the metadata - last: a
+        completion callback cannot legitimately run while an earlier piece is still being handled."""
+        cache = self.__dict__.setdefault('_sbf', {})
+        if nid in cache:
+            return cache[nid]
+        res = False
+        if not self.sc.get('feedback') and not any(m.get('kind') == 'emit_into' for m in self.sc['graph']):
+            serial = False
+            cur = self.spec[nid]
+            while True:
+                ups = cur.get('up', [])
+                if len(ups) != 1:
+                    break
+                par = self.spec[ups[0]]
+                if len(self.children.get(par['id'], [])) != 1:
+                    break
+                if par['op'] == 'flatten':
+                    res = serial and not self.below_one_to_many(par['up'][0])
+                    break
+                if par['op'] in ('buffer', 'delay'):
+                    serial = True
+                elif par['op'] not in ('map', 'filter', 'pluck'):
+                    break
+                cur = par
+        cache[nid] = res
+        return res
 
     def below_one_to_many(self, nid):
         cache = self.__dict__.setdefault('_b1m', {})
